@@ -28,6 +28,13 @@ harness
   read-only); the table is what survives the conversion; float32 results must match the table
   scaled/normalised in float32 as the code does (1e-9) or converted to float64 first (64 ulp of
   float32); integer tables may be rejected with ValueError/TypeError,
+* draws per-event temperature arrays with every kind of spread (constant, drift of 1e-6..0.5
+  degC, values that coincide after rounding, few repeated values, wide, one outlier) and checks
+  every event against the exact model with ITS OWN viscosity (1e-9), plus the batch-composition
+  law "appending / removing an outlier event does not change the others",
+* generates user LUTs with boundary values (deform = 0 nodes and grid lines, abscissa = 0,
+  E = 0, negative deform / E); oracle and model interpolate the file's full content, events are
+  placed in the triangles spanned by those nodes,
 * runs call HISTORIES in one process over a mutable LUT environment: files rewritten in place
   (same path, other table, mtime bumped), identifiers registered / de-registered /
   re-registered to other files, calls by str/pathlib path, identifier, built-in name and tuple
@@ -61,6 +68,9 @@ RULE = ("call cases = (LUT: the 3 built-in files of the tree under test + genera
         "small LUTs by full scan of all triangles; tolerance 1e-9 relative / 1e-12 absolute, "
         "widened by 16ulp*cond*spread in sliver triangles; NaN-ness not compared within 1e-9 of "
         "the hull or within 64ulp*cond of a sliver's edge); laws and fingerprints per case. "
+        "Temperature arrays: constant / drift 1e-6..0.5 degC / rounding twins / few values / wide "
+        "/ one outlier, each event against its own viscosity. Half of the user LUTs contain "
+        "zeros or negative entries (deform=0, x=0, E=0, negative deform/E). "
         "Tuple mode: dtype float64/float32 (+int32/int64/uint16 for integer-valued tables) x "
         "layout C/F/strided/read-only. Histories: 10-22 ops over 3 paths and 2 identifiers "
         "(write/rewrite, register with and without explicit identifier, register of a taken or "
@@ -232,7 +242,7 @@ def gen_int_lut(rng, ident):
             "integer": True}
 
 
-def gen_user_lut(rng, ident, integer=False):
+def gen_user_lut(rng, ident, integer=False, boundary_values=None):
     if integer:
         return gen_int_lut(rng, ident)
     featx = rng.choice(["area_um", "volume", "area_um"])
@@ -251,8 +261,42 @@ def gen_user_lut(rng, ident, integer=False):
             y = y0 + (y1 - y0) * min(max(v, 0.0), 1.0) * (0.4 + 0.6 * u)
             e = 0.4 + 25 * math.exp(-3 * v) * (0.3 + u) + rng.uniform(0, 0.5)
             rows.append([x, y, e])
-    # round like a data file would (6 significant digits), keep distinct positions
+    # round like a data file would (6 significant digits)
     rows = [[float("%.6g" % v) for v in r] for r in rows]
+    # boundary values a loader must take as they are: nodes at exactly zero deformation (the
+    # undeformed sphere), zero abscissa, zero or negative emodulus, negative deformation
+    boundary = []
+    if boundary_values is None:
+        boundary_values = rng.random() < 0.5
+    if boundary_values:
+        ymin = min(r[1] for r in rows)
+        xmin = min(r[0] for r in rows)
+        kinds = rng.sample(["deform0", "deform0", "x0", "E0", "negative_deform", "negative_E",
+                            "deform0_line"], rng.randint(1, 3))
+        for kd in kinds:
+            if kd == "deform0":          # the lowest nodes sit at deform == 0
+                for r in rows:
+                    if r[1] <= ymin * 1.5 + 1e-4:
+                        r[1] = 0.0
+            elif kd == "deform0_line":   # a complete first grid line at deform == 0
+                xs_ = sorted({r[0] for r in rows})
+                rows += [[x_, 0.0, float("%.6g" % rng.uniform(20, 60))]
+                         for x_ in xs_[::max(1, len(xs_) // 5)]]
+            elif kd == "x0":
+                for r in rows:
+                    if r[0] <= xmin * 1.02:
+                        r[0] = 0.0
+            elif kd == "E0":
+                for r in rng.sample(rows, min(3, len(rows))):
+                    r[2] = 0.0
+            elif kd == "negative_deform":
+                for r in rows:
+                    if r[1] <= ymin * 1.5 + 1e-4:
+                        r[1] = -float("%.6g" % rng.uniform(0.0005, 0.004))
+            else:
+                for r in rng.sample(rows, min(2, len(rows))):
+                    r[2] = -float("%.6g" % rng.uniform(0.1, 2))
+        boundary = sorted(set(kinds))
     seen, out = set(), []
     for r in rows:
         if (r[0], r[1]) not in seen:
@@ -265,7 +309,8 @@ def gen_user_lut(rng, ident, integer=False):
             "fluid_viscosity": rng.choice([15.0, 6.0, 1.0, 3.7]),
             "fluid_viscosity_unit": "mPa s",
             "identifier": ident, "method": "verif"}
-    return {"kind": "user", "rows": out, "meta": meta, "featx": featx, "ident": ident}
+    return {"kind": "user", "rows": out, "meta": meta, "featx": featx, "ident": ident,
+            "boundary": boundary}
 
 
 class Lut:
@@ -345,12 +390,43 @@ def gen_visc(rng, n):
     if rng.random() < 0.8:          # mostly a model that is defined for the medium
         model = rng.choice(MODELS[:3] if MEDIA[medium] != "0.83% MC-PBS" else MODELS[2:3])
     lo, hi = rng.choice([(18, 26), (22, 37), (16, 40), (22, 26)])
-    if r < 0.6:
-        return medium, model, round(rng.uniform(lo, hi), 2)
-    if rng.random() < 0.25:
-        t = round(rng.uniform(lo, hi), 2)
-        return medium, model, [t] * n
-    return medium, model, [round(rng.uniform(lo, hi), 2) for _ in range(n)]
+    if r < 0.5:
+        return medium, model, rng.choice([round(rng.uniform(lo, hi), 2), rng.uniform(lo, hi)])
+    return medium, model, gen_temperatures(rng, n, lo, hi)
+
+
+TEMP_KINDS = ["constant", "drift", "drift", "rounding_twins", "wide", "outlier", "few_values"]
+
+
+def gen_temperatures(rng, n, lo, hi, kind=None):
+    """per-event temperatures with every kind of spread"""
+    kind = kind or rng.choice(TEMP_KINDS)
+    base = rng.uniform(lo + 1, hi - 1)
+    if kind == "constant":
+        t = [rng.choice([round(base, 2), base])] * n
+    elif kind == "drift":
+        # slow drift / sensor noise of amplitude 1e-6 ... 0.5 degC around one temperature
+        amp = 10.0 ** rng.uniform(-6, math.log10(0.5))
+        if rng.random() < 0.5:
+            t = [base + amp * (2 * i / max(n - 1, 1) - 1) for i in range(n)]
+        else:
+            t = [base + amp * rng.uniform(-1, 1) for _ in range(n)]
+    elif kind == "rounding_twins":
+        # distinct values that coincide after rounding to 1-3 decimals
+        dec = rng.choice([1, 2, 2, 3])
+        grid = [round(base + k * 10.0 ** -dec, dec) for k in range(-2, 3)]
+        t = [rng.choice(grid) + rng.uniform(-0.45, 0.45) * 10.0 ** -dec for _ in range(n)]
+    elif kind == "wide":
+        t = [rng.uniform(lo, hi) for _ in range(n)]
+    elif kind == "few_values":
+        vals = [rng.uniform(lo, hi) for _ in range(rng.randint(2, 4))]
+        t = [rng.choice(vals) for _ in range(n)]
+    else:
+        # (nearly) constant with one event at a clearly different temperature
+        amp = rng.choice([0.0, 10.0 ** rng.uniform(-6, -1)])
+        t = [base + amp * rng.uniform(-1, 1) for _ in range(n)]
+        t[rng.randrange(n)] = base + rng.choice([-1, 1]) * rng.uniform(3, 9)
+    return [float(min(max(v, 1.0), 60.0)) for v in t]
 
 
 def gen_events(rng, lut, L, px, n):
@@ -376,9 +452,18 @@ def gen_events(rng, lut, L, px, n):
         ds.append(float(d))
         cats.append(cat)
 
+    # triangles spanned by nodes with boundary values (exact zeros, negative entries)
+    special = np.nonzero((rows[:, :2] <= 0).any(1) | (rows[:, 2] <= 0))[0]
+    sp_tris = np.nonzero(np.isin(tri.simplices, special).any(1))[0] if len(special) else []
     for _ in range(n):
         r = rng.random()
-        if r < 0.40:
+        if len(sp_tris) and r < 0.22:
+            s = tri.simplices[sp_tris[rng.randrange(len(sp_tris))]]
+            w = [rng.random() ** 2 + 1e-3 for _ in range(3)]
+            t = sum(w)
+            P = sum(rows[s[i], :2] * (w[i] / t) for i in range(3))
+            emit(P[0], P[1], "at_boundary_nodes")
+        elif r < 0.40:
             s = tri.simplices[rng.randrange(len(tri.simplices))]
             w = [rng.random() for _ in range(3)]
             t = sum(w)
@@ -664,14 +749,14 @@ class Geo:
         s = int(self.tri.find_simplex(np.array([q]))[0])
         return s
 
-    def candidates(self, s, q):
+    def candidates(self, s, q, wtol=1e-7):
         """the simplex found in floats; if the point is within rounding of one of its edges or
         vertices also the simplices around them (the exact test decides)"""
         sim = self.tri.simplices
         a, b, c = (self.t[i] for i in sim[s])
         D = orient(a, b, c)
         w = min(abs(orient(b, c, q) / D), abs(orient(c, a, q) / D), abs(orient(a, b, q) / D))
-        if w > 1e-7:
+        if w > wtol:
             return [s]
         if self._v2s is None:
             v2s = {}
@@ -793,7 +878,8 @@ def prepare(lut, case, force64=False):
             k = int(np.nanargmax(wall))
             if wall[k] > -geo.loc_uncertainty([k]) - 1e-13:
                 s, uncertain = k, True
-        cands = geo.candidates(s, q) if s >= 0 else []
+        # (for float32 tables the rounding of the table itself moves edges by ~1e-7)
+        cands = geo.candidates(s, q, max(1e-7, 1024 * 2.2e-16 * unc_x)) if s >= 0 else []
         if s >= 0 and geo.minbary_one(s, q) < geo.loc_uncertainty(cands):
             uncertain = True
         near.append(abs(dist) < BAND or uncertain)
@@ -822,13 +908,14 @@ def prepare(lut, case, force64=False):
             R = lut.rows
             px_raw = (x * (lut.L0 / L) ** lut.k if L != lut.L0 else x, dc)
             lo, hi = R[:, :2].min(0), R[:, :2].max(0)
-            if px_raw[0] > hi[0] * (1 + 1e-12):
+            mg = 1e-12 * (hi - lo)
+            if px_raw[0] > hi[0] + mg[0]:
                 a, b = (hi[0], 0.0), (hi[0], 1.0)
-            elif px_raw[0] < lo[0] * (1 - 1e-12):
+            elif px_raw[0] < lo[0] - mg[0]:
                 a, b = (lo[0], 1.0), (lo[0], 0.0)
-            elif px_raw[1] > hi[1] * (1 + 1e-12):
+            elif px_raw[1] > hi[1] + mg[1]:
                 a, b = (1.0, hi[1]), (0.0, hi[1])
-            elif px_raw[1] < lo[1] * (1 - 1e-12):
+            elif px_raw[1] < lo[1] - mg[1]:
                 a, b = (0.0, lo[1]), (1.0, lo[1])
             else:
                 a, b = R[geo.hull[edge, 0], :2], R[geo.hull[edge, 1], :2]
@@ -923,23 +1010,36 @@ def laws(rng, lut, case, info, base, which=None):
             return arrays_close(a, b)
         if a.shape != b.shape:
             return False
+        # magnitude of this call's results relative to the base case (the laws rescale E):
+        # converts the absolute conditioning allowance of an event whose value is ~0
+        g = 1.0
+        for i in range(len(a)):
+            j = i if idx is None else idx[i]
+            if j < len(expect) and math.isfinite(expect[j]) and expect[j] != 0 \
+                    and math.isfinite(float(a[i])):
+                g = max(g, abs(float(a[i]) / expect[j]))
         for i in range(len(a)):
             j = i if idx is None else idx[i]
             u, v = float(a[i]), float(b[i])
-            if j < len(near) and near[j] and math.isnan(u) != math.isnan(v):
+            if j < len(near) and near[j] and (math.isnan(u) != math.isnan(v) or (
+                    j < len(expect) and not math.isfinite(expect[j]))):
+                # location uncertain (hull band / sliver edge): NaN-ness is not compared, and
+                # if the base case has no triangle for the event there is no conditioning
+                # allowance to compare values with
                 continue
             # conditioning allowance of the event's triangle, relative (the laws change the
             # magnitude of E)
             rs = 0.0
             if j < len(slack) and math.isfinite(expect[j]) and expect[j] != 0:
                 rs = 2 * slack[j] / abs(expect[j])     # two roundings, one per call
-            if not close(u, v, rs * max(abs(u), abs(v)) if math.isfinite(u) and math.isfinite(v)
-                         else 0.0, rtol):
+            ab = 2 * slack[j] * g if j < len(slack) else 0.0
+            if not close(u, v, max(rs * max(abs(u), abs(v)), ab)
+                         if math.isfinite(u) and math.isfinite(v) else 0.0, rtol):
                 return False
         return True
 
     todo = which if which is not None else ["repeat", "perm", "split", "routes", "linear",
-                                           "rescale", "single"]
+                                           "rescale", "single", "outlier"]
     if "repeat" in todo:
         again = call_impl(lut, case)
         if not (isinstance(again, np.ndarray) and np.array_equal(again, base, equal_nan=True)):
@@ -978,6 +1078,25 @@ def laws(rng, lut, case, info, base, which=None):
             o_arr = call_impl(lut, case, temp=[case["temp"]] * n)
         if not same(o_arr, o_sc):
             bad.append(("routes", "per-event temperature array and scalar temperature disagree"))
+    if "outlier" in todo and isinstance(case["temp"], list) and n > 0 \
+            and isinstance(case["medium"], str):
+        # batch composition: one more event at a clearly different temperature (and, the other
+        # way round, the batch without its most deviating event) must not change the others
+        tm = sum(case["temp"]) / n
+        t_out = tm + 7.0 if tm < 30 else tm - 7.0
+        o = call_impl(lut, case, xs=case["x"] + [case["x"][0]], ds=case["d"] + [case["d"][0]],
+                      temp=case["temp"] + [t_out])
+        if isinstance(o, str) or len(o) != n + 1 or not same(o[:n], base):
+            bad.append(("outlier", f"appending one event at {t_out:.2f} degC changes the "
+                                   f"results of the other events"))
+        if n > 2:
+            j = max(range(n), key=lambda i: abs(case["temp"][i] - tm))
+            keep = [i for i in range(n) if i != j]
+            o = call_impl(lut, case, xs=[case["x"][i] for i in keep],
+                          ds=[case["d"][i] for i in keep], temp=[case["temp"][i] for i in keep])
+            if isinstance(o, str) or not same(o, base[keep], keep):
+                bad.append(("outlier", f"removing event {j} (temperature "
+                                       f"{case['temp'][j]!r}) changes the results of the others"))
     if "linear" in todo:
         # numeric viscosity: E(c1*Q, c2*eta) = c1*c2*E(Q, eta)
         eta = rng.choice([1.0, 5.5, 15.0])
@@ -1489,7 +1608,8 @@ def cleanup_registry():
         pass
 
 
-LAW_SETS = [["repeat", "perm"], ["split", "routes"], ["linear", "single"], ["rescale", "routes"]]
+LAW_SETS = [["outlier", "repeat", "perm"], ["split", "routes"], ["outlier", "linear", "single"],
+            ["rescale", "routes"]]
 
 
 def run(ctx):
@@ -1562,6 +1682,12 @@ def _run(ctx):
         ctx.stat(f"route={info['route']}")
         ctx.stat("visc=" + ("numeric" if not isinstance(case["medium"], str) else
                             ("array" if isinstance(case["temp"], list) else "scalar")))
+        if isinstance(case["temp"], list) and case["temp"]:
+            sp = max(case["temp"]) - min(case["temp"])
+            ctx.stat("temp_spread=" + ("0" if sp == 0 else "<1e-3" if sp < 1e-3 else
+                                       "<0.5" if sp < 0.5 else ">=0.5"))
+        for b in lut.spec.get("boundary") or []:
+            ctx.stat("lut_boundary_" + b)
         if not case["px"]:
             ctx.stat("px=0")
         if isinstance(out, str):
